@@ -40,6 +40,7 @@ class FnContract:
     canaries: dict = field(default_factory=dict)  # clauses that must NOT be provable
     name: str | None = None  # variant label (several contracts per function are allowed)
     calls: dict = field(default_factory=dict)  # callee name in source -> contract key override
+    models: dict = field(default_factory=dict)  # contract-local trusted models: qualified python name -> model(ex, st, args, kwargs, node)
     globals: dict = field(default_factory=dict)  # free names -> python constant / Ty-typed symbol
     hints: dict = field(default_factory=dict)  # line text -> list of assertion clauses (proved, then usable)
     partial: bool = True  # termination not proved
